@@ -120,6 +120,14 @@ def questionAt? (m : Bytes) (off : Nat) : Option (Question × Nat) := do
   let c ← u16At m (e + 2)
   pure ({ name := nm, qtype := t, qclass := c }, e + 4)
 
+/-- `count` consecutive questions starting at `off`; the questions and the offset after them -/
+def questionsAt? (m : Bytes) : (count : Nat) → (off : Nat) → Option (List Question × Nat)
+  | 0, off => some ([], off)
+  | n + 1, off => do
+    let (q, o) ← questionAt? m off
+    let (qs, o') ← questionsAt? m n o
+    pure (q :: qs, o')
+
 /-- resource record at `off`; RDATA must lie inside the message -/
 def rrAt? (m : Bytes) (off : Nat) : Option (RR × Nat) := do
   let (nm, e, _) ← decodeName? m off
